@@ -14,11 +14,24 @@ MAIN = "tealer.__main__"
 
 
 def build_tealer(ctx, src, name="c", stub=True):
+    """a Tealer object for one contract; stub=True leaves every block context at its default (the fixpoint is decided elsewhere),
+    stub=False runs the context analyses as well"""
     w = ctx.world
-    if stub:
-        w.module(PF).values["_apply_transaction_context_analysis"] = ("builtin", "noop")
+    pf = w.module(PF)
+    real = pf.__dict__.setdefault("_real_analysis", None)
+    if real is None:
+        pf.values.pop("_apply_transaction_context_analysis", None)
+        real = pf._real_analysis = pf.lookup("_apply_transaction_context_analysis")
+    pf.values["_apply_transaction_context_analysis"] = ("builtin", "noop") if stub else real
     f = w.func(COMMON, "init_tealer_from_single_contract")
     return w.call(f, src, name)
+
+
+# shapes whose detect run needs the real block contexts: a retsub outside a subroutine is never reached by the path search because
+# the backward pass leaves its block with the empty context; with default contexts the search would run into it
+NEEDS_ANALYSIS = {"retsub in the main program", "retsub in the main program next to a subroutine"}
+# evaluated with the real analysis in the thorough tier only (cost)
+THOROUGH_ONLY = {"retsub in the main program next to a subroutine"}
 
 
 def printer_classes(ctx):
@@ -68,7 +81,8 @@ def programs():
                   "dead call site of a live subroutine", "labels at the end", "back-to-back labels", "empty subroutine",
                   "callsub as last instruction", "subroutine called twice", "nested subroutines", "recursive subroutine",
                   "subroutine before main", "subroutine that exits the program", "call inside a loop", "return point that is a jump target",
-                  "mutual recursion", "fall off the end", "subroutine path falls off the end"):
+                  "mutual recursion", "fall off the end", "subroutine path falls off the end", "retsub in the main program",
+                  "retsub in the main program next to a subroutine"):
             PROGRAMS[k] = SHAPES[k]
     return PROGRAMS
 
@@ -93,8 +107,10 @@ def rule_outputs_complete(ctx, rep):
     NS = None
     n = 0
     for name, src in programs().items():
+        if name in THOROUGH_ONLY:
+            continue
         try:
-            tl = build_tealer(ctx, src)
+            tl = build_tealer(ctx, src, stub=name not in NEEDS_ANALYSIS)
         except PyRaise as e:
             rep.violation(rule, f"{name}: contract loads", ctx.path(COMMON), f"RAISES {e.exc} {e.where}", "a Tealer object",
                           why="a valid program cannot be loaded")
